@@ -124,6 +124,9 @@ def candidates(seed, around=None):
     yield {"enums": ["enum Sw { ON = 4, BOTH = ON + 3, NEXT, FIXED = 20, LAST, END }"]}
     yield {"enums": ["enum Sw { ON = 4, FIXED = 20, BOTH = ON + 3, NEXT, LAST }"]}
     yield {"enums": ["enum class Mode { OFF, ON = 4, AUTO }", "enum Plain { P0 = 3, P1 }"]}
+    # two enumerations with members of the same name, each using its OWN member in later values
+    yield {"enums": ["enum Signal { LOW = 2, MID = LOW + 1 }", "enum class Priority { LOW = 5, MID = LOW + 1, HIGH = MID * 5 }"]}
+    yield {"enums": ["enum class Shade { RED = 60, BLUE, DARK = RED + BLUE }", "enum class Tone { RED = 1, BLUE = RED + 1, DARK = RED + BLUE }"]}
     yield {"enums": ["enum Color { RED = 010, GREEN, BLUE = RED + 010 }"], "language": "c"}
     import random
     rnd = random.Random(seed)
